@@ -243,7 +243,15 @@ func (p *Policy) sanitize(r io.Reader, w io.Writer) error {
 			return err
 		}
 
+		// the tokenizer reports a tag as self-closing whenever a solidus stands
+		// before the closing '>', also where that solidus is the last character
+		// of an unquoted attribute value: <object data=x/> is a start tag
+		// with data="x/" for HTML, and its content follows
+		unquotedSolidus := solidusEndsUnquotedValue(tokenizer.Raw())
 		token := tokenizer.Token()
+		if token.Type == html.SelfClosingTagToken && unquotedSolidus {
+			token.Type = html.StartTagToken
+		}
 		precededByDroppedVoidElement := droppedVoidElement
 		droppedVoidElement = ""
 		switch token.Type {
@@ -1132,6 +1140,63 @@ func browserFindsHost(scheme, href string) bool {
 	case "":
 		isSlash := func(c byte) bool { return c == '/' || c == '\\' }
 		return len(href) > 1 && isSlash(href[0]) && isSlash(href[1])
+	}
+	return false
+}
+
+// solidusEndsUnquotedValue reports whether the raw text of a tag ends in "/>"
+// with the solidus being part of an unquoted attribute value. It walks over the
+// attributes the way the HTML tokenizer does: a name up to white space, '/',
+// '=' or '>' (a leading '=' belongs to the name), and after '=' and optional
+// white space a value that is quoted, or unquoted and then runs up to the next
+// white space or the closing '>'.
+func solidusEndsUnquotedValue(raw []byte) bool {
+	n := len(raw) - 1 // index of the closing '>'
+	if n < 3 || raw[n] != '>' || raw[n-1] != '/' {
+		return false
+	}
+	ws := func(c byte) bool { return isASCIIWhitespace(rune(c)) }
+	i := 1
+	for i < n && !ws(raw[i]) && raw[i] != '/' {
+		i++ // tag name
+	}
+	for i < n {
+		if ws(raw[i]) || raw[i] == '/' {
+			i++
+			continue
+		}
+		// attribute name
+		for start := i; i < n && !ws(raw[i]) && raw[i] != '/' && (raw[i] != '=' || i == start); {
+			i++
+		}
+		for i < n && ws(raw[i]) {
+			i++
+		}
+		if i >= n || raw[i] != '=' {
+			continue // no value
+		}
+		i++
+		for i < n && ws(raw[i]) {
+			i++
+		}
+		if i >= n {
+			return false
+		}
+		if q := raw[i]; q == '"' || q == '\'' {
+			for i++; i < n && raw[i] != q; {
+				i++
+			}
+			i++
+			continue
+		}
+		for i < n && !ws(raw[i]) {
+			i++
+		}
+		if i == n {
+			// the unquoted value runs up to the closing '>' and takes
+			// the solidus with it
+			return true
+		}
 	}
 	return false
 }
